@@ -137,7 +137,8 @@ def finish(rep, replay_key=None):
     if broken:
         for b in broken:
             print('ANALYSIS-BROKEN property=%s %s' % (pid, b))
-        return 2
+        if not viol:
+            return 2
     for o, k in kn:
         print('KNOWN-FINDING: property=%s %s [%s %s] %s' % (pid, k.get('what', o['detail']), o['rule'], o['key'], o['where']))
     if viol:
